@@ -592,7 +592,11 @@ pub fn case_solve(ctx: &mut Ctx, case: &Value) {
                 }
                 if let Some(e) = bad {
                     let margin = model_margin(ctx, &t, &c1);
-                    if margin < ILL {
+                    // a case may declare that no sum in it depends on the order of its terms (every
+                    // infoset at no more than two nodes): then ties are broken the same way for every
+                    // thread count and nothing is ill-conditioned
+                    let order_free = case["order_free"].as_bool().unwrap_or(false);
+                    if margin < ILL && !order_free {
                         ctx.skipped_illcond += 1;
                         ctx.stat("ill_conditioned_skipped");
                     } else {
@@ -1023,17 +1027,36 @@ fn threads_check(ctx: &mut Ctx, methods: &[&str]) {
             iters = *ctx.rng.pick(&[2u64, 3, 4, 6]);
             force_default_target = i % 12 == 7;
         }
+        let mut exact_zero = false;
+        if i % 12 == 3 {
+            // symmetric classics: after the first pass every cumulative regret is exactly zero, so a
+            // bound *equal* to a threshold of zero occurs (the stop test is a strict comparison)
+            t = match (i / 12) % 3 {
+                0 => matching_pennies(0.0),
+                1 => matching_pennies(0.0).map_payoffs(&|p| 3.0 * p),
+                _ => matrix_game(&mut ctx.rng, 2, 2).map_payoffs(&|_| 0.5),
+            };
+            fam = "exact-zero-regret";
+            iters = *ctx.rng.pick(&[2u64, 3, 4, 6]);
+            exact_zero = true;
+        }
         ctx.stat(&format!("family_{}", fam));
         let target = if !force_default_target && ctx.rng.chance(0.6) { Some(ctx.rng.range(1, 64) as usize) } else { None };
-        let thr = if ctx.rng.chance(0.2) { 0.05 * t.range() } else { 0.0 };
+        let thr = if exact_zero { 0.0 } else if ctx.rng.chance(0.2) { 0.05 * t.range() } else { 0.0 };
         let seed = ctx.rng.next() >> 12;
+        let params = if exact_zero { *ctx.rng.pick(&[Params::dcfr(), Params::cfr_plus(), Params::lcfr()]) } else { params };
         let cfg = Cfg { method: method.into(), params, iters, thr, threads, target, seed };
         if i < 2 {
             sample_case(ctx, &t, fam, &cfg);
         }
         let asserts: &[&str] = if target.is_some() && i % 3 == 0 { &["multi_eq_single", "corr"] } else { &["multi_eq_single"] };
         for _ in 0..reps {
-            case_solve(ctx, &solve_case(&t, &cfg, asserts));
+            let mut case = solve_case(&t, &cfg, asserts);
+            if exact_zero {
+                // 2 x 2: every infoset at one or two nodes, every sum has at most two terms
+                case["order_free"] = json!(true);
+            }
+            case_solve(ctx, &case);
         }
     }
 }
@@ -1266,6 +1289,25 @@ pub fn c10(ctx: &mut Ctx) -> String {
         if i < 2 {
             sample_case(ctx, &t, fam, &cfg);
         }
+        let asserts: &[&str] = if threads == 1 { &["draws", "corr"] } else { &["draws", "multi_eq_single"] };
+        case_solve(ctx, &solve_case(&t, &cfg, asserts));
+    }
+    // wide tables: an outcome or action index above 255 / 65535 is an index like any other
+    let fans: Vec<(&str, usize, &str)> = if ctx.thorough {
+        vec![("chance", 300, "S"), ("chance", 300, "E"), ("player", 600, "E"), ("chance", 65_538, "S"), ("chance", 65_538, "E"), ("player", 70_000, "E"), ("chance", 1000, "S"), ("player", 300, "E")]
+    } else {
+        vec![("chance", 300, "S"), ("chance", 300, "E"), ("player", 600, "E"), ("chance", 65_538, "S")]
+    };
+    for (fi, (kind, n, method)) in fans.iter().enumerate() {
+        if ctx.out_of_time() {
+            break;
+        }
+        let t = if *kind == "chance" { chance_fan(&mut ctx.rng, *n) } else { player_fan(&mut ctx.rng, *n) };
+        ctx.stat(&format!("family_{}-fan-{}", kind, n));
+        let seed = ctx.rng.next() >> 12;
+        let iters = if *n > 10_000 { 2 } else { 5 };
+        let threads = if fi % 2 == 1 && *n < 10_000 { 2 } else { 1 };
+        let cfg = Cfg { method: (*method).into(), params: Params::dcfr(), iters, thr: 0.0, threads, target: None, seed };
         let asserts: &[&str] = if threads == 1 { &["draws", "corr"] } else { &["draws", "multi_eq_single"] };
         case_solve(ctx, &solve_case(&t, &cfg, asserts));
     }
